@@ -211,3 +211,13 @@ func Iff(a, b bool) bool     { return a == b }
 // StrEq / BytesEq compare without forking under the engine.
 func StrEq(a, b string) bool   { return a == b }
 func BytesEq(a, b []byte) bool { return string(a) == string(b) }
+
+// WSFrames returns the frames written to a websocket connection under the
+// engine (natively frames are read from the peer; nil here).
+func WSFrames(ws any) []string { return nil }
+
+// WSClosed reports whether Close was called on the connection (engine only).
+func WSClosed(ws any) bool { return false }
+
+// DropSpawned discards goroutine thunks recorded so far (engine only).
+func DropSpawned() {}
